@@ -61,6 +61,7 @@ class AbstractDiscreteTimeOfflineInterpreter(AbstractOfflineInterpreter, Discret
         for key in dataset:
             if key != 'time':
                 self.ast.var_object_dict[key] = dataset[key]
+                self.ast.inputs[key] = dataset[key]
 
 
 def discrete_time_offline_interpreter_factory(AstVisitor):
